@@ -19,6 +19,7 @@ type thr struct {
 	done    bool
 	started bool
 	blocked string // mutex key the thread waits for, or ""
+	cond    func() bool
 	stack   []string
 	depth   int
 }
@@ -47,12 +48,33 @@ func (s *sched) enabled(in *Interp) []*thr {
 		if t.done {
 			continue
 		}
-		if t.blocked != "" && !in.mutexFree(t.blocked) {
+		if t.cond != nil {
+			if !t.cond() {
+				continue
+			}
+		} else if t.blocked != "" && !in.mutexFree(t.blocked) {
 			continue
 		}
 		out = append(out, t)
 	}
 	return out
+}
+
+// blockOnCond parks the running thread until cond holds.
+func (in *Interp) blockOnCond(cond func() bool) {
+	s := in.sched
+	me := s.threads[s.cur]
+	for !cond() {
+		me.cond = cond
+		en := s.enabled(in)
+		if len(en) == 0 {
+			me.cond = nil
+			panic(goPanic{msg: "fatal error: all goroutines are asleep - deadlock!", fn: "sync"})
+		}
+		next := en[in.choice(len(en))]
+		in.switchTo(me, next)
+	}
+	me.cond = nil
 }
 
 // switchTo hands the token from thread me to thread next and waits until me is scheduled again.
